@@ -45,6 +45,9 @@ func evalObs(ev *bexpr.Evaluator, d interface{}) (o string) {
 
 var obsCalls int64
 
+// texts whose syntax tree changed when the buffer handed to Parse was overwritten afterwards
+var bufferAliasing []string
+
 // exprObs creates an evaluator and evaluates it once: NOCREATE if the text does not parse.
 func exprObs(expr string, d interface{}, opts ...bexpr.Option) (o string) {
 	defer func() {
@@ -83,10 +86,21 @@ func parseTree(expr string) (grammar.Expression, bool) {
 	if err != nil || ast == nil {
 		return nil, false
 	}
-	for i := range buf { // the buffer is the caller's to re-use
-		buf[i] = 'Z'
-	}
 	e, ok := ast.(grammar.Expression)
+	if ok && e != nil {
+		var p1, p2 []string
+		before := sExpr(e, &p1)
+		for i := range buf { // the buffer is the caller's to re-use
+			buf[i] = 'Z'
+		}
+		if after := sExpr(e, &p2); after != before && len(bufferAliasing) < 5 {
+			bufferAliasing = append(bufferAliasing, expr)
+			e2, _ := grammar.Parse("", []byte(expr)) // continue with an intact tree
+			if ee, ok2 := e2.(grammar.Expression); ok2 {
+				return ee, true
+			}
+		}
+	}
 	return e, ok
 }
 
